@@ -16,7 +16,34 @@ MOD = "vpcheck.checks.c14"
 def tasks(tier, seed):
     n = 1000 if tier == "quick" else 32000
     shards = 48 if tier == "quick" else 192
-    return [("vpcheck.checks.c14m", "hyp", (n // shards, seed * 1_000_003 + 7000 + i, tier)) for i in range(shards)]
+    t = [("vpcheck.checks.c14m", "hyp", (n // shards, seed * 1_000_003 + 7000 + i, tier)) for i in range(shards)]
+    for name, nsh in (("str", 16), ("extra", 8), ("py", 16), ("rel", 4)):
+        t += [("vpcheck.checks.c14m", "tables", (name, tier, sh, nsh)) for sh in range(nsh)]
+    return t
+
+
+def tables(acc, name, tier, shard, nshards):
+    """L1: every ordered triple of single atoms on one variable family (the laws need three operands: a group only
+    forms when two atoms have met, and it then meets the third)."""
+    import itertools
+
+    from . import c02
+
+    layer = "marker-L1-atom-triples-" + name
+    acc.exhaustive_layers.add(layer)
+    mod = sys.modules[MOD]
+    quick = tier == "quick"
+    if name == "str":
+        A = c02.str_atoms(tier)
+    elif name == "extra":
+        A = c02.extra_atoms(tier)
+    elif name == "py":
+        A = [a for a in c02.py_atoms("quick") if not a["rev"]][:: 7 if quick else 3]
+    else:
+        A = c02.rel_atoms()[:: 3 if quick else 1]
+    for i, (x, y, z) in enumerate(itertools.product(A, repeat=3)):
+        if i % nshards == shard:
+            harness.process(mod, acc, "markertriple", {"a": c02.P(x), "b": c02.P(y), "c": c02.P(z)}, layer, timeout_s=2.5 if quick else 6.0)
 
 
 def strategy(tier):
